@@ -60,8 +60,8 @@ TOLERANCES = {
                '(dyadic lattice); off the lattice nodes within 8 ulp of the '
                'minimal distance are all acceptable',
     'linear': '|got-ref| <= (8+2^d)*eps(value dtype)*sum|w||f| + '
-              '2*sum_axes(4*eps64*(|x|+|c_i|+|c_i+1|)/h)*max|f|; exact at '
-              'nodes',
+              '2*sum_axes(4*eps64*(|x|+|c_i|+|c_i+1|)/h)*max|f| + '
+              '(2+2^d)*smallest_subnormal(value dtype); exact at nodes',
     'affine': '|got-(a.x+b)| <= (8+2^d+2d)*eps*scale + 2*dt*scale, scale = '
               '|b| + sum|a_i| max|c_i|',
     'conventions': 'single point / (d,N) array / mesh / out= results are '
@@ -894,7 +894,11 @@ def compare_interp(got, values, coords, schemes, point, strict, sig_tail,
     else:
         eps_val = float(np.finfo(values.dtype).eps)
     d = len(coords)
-    loose = (8 + 2 ** d) * eps_val * mag + 2 * dt * fmax + 1e-300
+    # absolute floor: one rounding per accumulated corner in the subnormal
+    # range of the value dtype (float32 values may be subnormal)
+    floor = (2 + 2 ** d) * (float(np.finfo(values.dtype).smallest_subnormal)
+                            if values.dtype.kind in 'fc' else 0.0)
+    loose = (8 + 2 ** d) * eps_val * mag + 2 * dt * fmax + floor + 1e-300
     tol = 0.0 if exact else loose
     cplx = values.dtype.kind == 'c'
     g = ref.CLD(got) if cplx else LD(got)
@@ -1068,8 +1072,11 @@ def run_interp(desc):
     strata.append('perm:' + desc['perm'])
 
     # --- out=
+    int_blend = vkind in 'iu' and kind != 'nearest'   # F17 region, if fixed
     for label, arg_o, want, cols in (('array', arr_in, flat[perm], arr_in),
                                      ('mesh', mesh, res_mesh, arr)):
+        if int_blend:
+            break       # out must have the integer dtype of the values
         out = np.empty(want.shape, dtype=values.dtype)
         out[...] = 'zz' if vkind == 'U' else 77
         r = call_mesh(interp, arg_o, 'interp', out=out) if label == 'mesh' \
@@ -1103,6 +1110,8 @@ def run_interp(desc):
                                                             want))
         pytype = {'f': float, 'c': complex, 'i': int, 'u': int,
                   'U': str}[vkind]
+        if int_blend:
+            pytype = (int, float)
         if not isinstance(r, pytype):
             raise Violation('C15|interp|single-type|' + sig_tail,
                             'single point gave {!r}'.format(type(r)))
@@ -1150,7 +1159,8 @@ def check_affine(desc, coords, pts, dtype, sig_tail):
         for ai, x, c in zip(a, pt, coords):
             want = want + LD(ai) * LD(x)
             dt += ref.linear_entries(c, x)[1]
-        tol = (8 + 2 ** d + 2 * d) * eps_val * scale + 2 * dt * scale + 1e-300
+        tol = (8 + 2 ** d + 2 * d) * eps_val * scale + 2 * dt * scale + \
+            (2 + 2 ** d) * float(np.finfo(dtype).smallest_subnormal) + 1e-300
         err = float(abs(ref.CLD(got) - want)) if np.dtype(dtype).kind == 'c' \
             else float(abs(LD(got) - want))
         if not err <= tol:
